@@ -1809,3 +1809,82 @@ func ruleSyncLoopAvoidsProducersMutex(h *H, rule string) {
 		}
 	}
 }
+
+// ruleFilterSetDoesNotGrow (R19i): every label of every anti-affinity rule narrows the set
+// of eligible servers. Growing the running set in place (`Add`) inside the loops is only
+// an initialisation when it happens for the very first label; guarded by the index of the
+// outer (rule) loop alone it happens for every label of the first rule, which turns "differs
+// in region AND in zone" into "differs in region OR in zone".
+func ruleFilterSetDoesNotGrow(h *H, rule string) {
+	h.Rule(rule, "K9", "inside the loops of the anti-affinity filter the running set of eligible servers is never grown in place, except under a boolean first-iteration flag carried by the innermost loop", 1)
+	n := 0
+	for _, w := range h.P.FieldWrites("coordinator/selectors/single", "Context", "Candidates") {
+		if ir.RelPkg(ir.PkgPathOf(w.Fn)) != "coordinator/selectors/single" || w.Val == nil {
+			continue
+		}
+		if call, ok := ir.Canon(w.Val).(*ssa.Call); ok && isSetMethod(call.Common(), "Difference") {
+			continue
+		}
+		fn := w.Fn
+		// the running set: what is stored into Context.Candidates at the end, its phi web and the fresh set it starts from
+		running := map[ssa.Value]bool{}
+		var walk func(v ssa.Value, d int)
+		walk = func(v ssa.Value, d int) {
+			c := ir.Canon(v)
+			if running[c] || d > 8 {
+				return
+			}
+			running[c] = true
+			if p, ok := c.(*ssa.Phi); ok {
+				for _, e := range p.Edges {
+					walk(e, d+1)
+				}
+			}
+		}
+		walk(w.Val, 0)
+		n++
+		h.Fn(ir.FuncName(fn))
+		adds, bad := 0, false
+		ir.Instrs(fn, func(in ssa.Instruction) {
+			c := ir.CallOf(in)
+			if c == nil || !isSetMethod(c, "Add") || len(c.Args) == 0 || !running[ir.Canon(c.Args[0])] {
+				return
+			}
+			hd := ir.EnclosingLoopHeader(in.Block())
+			if hd == nil {
+				return
+			}
+			// a set created inside the loops is the per-label set being filled, not the running one
+			if rc, isCall := ir.Canon(c.Args[0]).(*ssa.Call); isCall && ir.EnclosingLoopHeader(rc.Block()) != nil {
+				return
+			}
+			adds++
+			ok := false
+			for _, g := range ir.Guards(in) {
+				cond := g.Cond
+				for {
+					u, isU := cond.(*ssa.UnOp)
+					if !isU || u.Op != token.NOT {
+						break
+					}
+					cond = u.X
+				}
+				if p, isPhi := cond.(*ssa.Phi); isPhi && p.Block() == hd {
+					if b, isB := p.Type().Underlying().(*types.Basic); isB && b.Kind() == types.Bool {
+						ok = true
+					}
+				}
+			}
+			if !ok {
+				bad = true
+				h.Bad(rule, "running set grown in place in "+ir.FuncName(fn), h.pos(in), "servers are added to the running set of eligible servers inside the loop over labels without a first-iteration flag of that loop: a server that passes one label of a rule stays eligible although it fails another label of the same rule, so a Strict rule over several labels is not enforced")
+			}
+		})
+		if !bad {
+			h.OK(rule, "running set of the anti-affinity filter in "+ir.FuncName(fn), h.pos(w.Instr), fmt.Sprintf("%d in-place additions inside the loops, all under a first-iteration flag", adds))
+		}
+	}
+	if n == 0 {
+		h.Anchor(rule, "the running result set of the anti-affinity filter")
+	}
+}
